@@ -354,6 +354,32 @@ def one_input(ctx, inp, cid, tmp, heavy=True):
                 ctx.violation(f"GeoNetwork.save-Load:grid-differs:{icls}",
                               {}, cid)
 
+        # several networks on ONE grid object, with different geographic
+        # weight types in turn: each has the weights of its own type
+        cl = np.cos(np.float32(lat) * np.pi / 180).astype(float)
+        seq = [str(v) for v in rg.choice(["surface", "irrigation"], 4)]
+        for si, t in enumerate(seq):
+            okg, gnet = ctx.call(GeoNetwork, gg, adjacency=A,
+                                 node_weight_type=t, silence_level=3)
+            ctx.count("paths_checked")
+            if not okg:
+                ctx.violation(f"GeoNetwork(shared-grid):raises:"
+                              f"{type(gnet).__name__}:{icls}",
+                              {"exc": repr(gnet)}, cid)
+                break
+            want = cl if t == "surface" else cl ** 2
+            if not np.allclose(gnet.node_weights, want, rtol=1e-5,
+                               atol=1e-7):
+                ctx.violation(f"GeoNetwork(shared-grid):node_weights!="
+                              f"type:{t}:{icls}",
+                              {"sequence": seq[:si + 1],
+                               "got": gnet.node_weights, "want": want}, cid)
+                break
+            if si == 1:
+                # ... also when the type of an existing network is switched
+                ctx.call(gnet.set_node_weight_type,
+                         "surface" if t == "irrigation" else "irrigation")
+
         def sp_rt():
             net = SpatialNetwork(sg, adjacency=A, silence_level=3)
             net.node_weights = w
@@ -497,6 +523,13 @@ def run(ctx):
                 sg = np.triu(sg, 1)
                 sg = sg + sg.T
             W = W * sg
+        if W is not None and r.random() < 0.3:
+            # ... and a link may carry the value 0
+            z = r.random(W.shape) < 0.25
+            if not d:
+                z = np.triu(z, 1)
+                z = z | z.T
+            W = np.where(z, 0.0, W)
         inp = {"A": A.astype(np.int8), "directed": d, "w": w, "W": W}
         with ctx.guard(60):
             one_input(ctx, inp, cid, tmp,
